@@ -246,7 +246,12 @@ type AATLookupRecord4 struct {
 	Values []uint16 `offsetSize:"Offset16" offsetRelativeTo:"Parent" arrayCount:"ComputedField-nValues()"`
 }
 
-func (lk AATLookupRecord4) nValues() int { return int(lk.LastGlyph) - int(lk.FirstGlyph) + 1 }
+func (lk AATLookupRecord4) nValues() int {
+	if lk.LastGlyph < lk.FirstGlyph { // invalid segment
+		return 0
+	}
+	return int(lk.LastGlyph) - int(lk.FirstGlyph) + 1
+}
 
 type AATLoopkup6 struct {
 	version uint16 `unionTag:"6"`
@@ -327,7 +332,12 @@ type loopkupRecordExt4 struct {
 	Values []uint32 `offsetSize:"Offset16" offsetRelativeTo:"Parent" arrayCount:"ComputedField-nValues()"`
 }
 
-func (lk loopkupRecordExt4) nValues() int { return int(lk.LastGlyph) - int(lk.FirstGlyph) + 1 }
+func (lk loopkupRecordExt4) nValues() int {
+	if lk.LastGlyph < lk.FirstGlyph { // invalid segment
+		return 0
+	}
+	return int(lk.LastGlyph) - int(lk.FirstGlyph) + 1
+}
 
 type AATLoopkupExt6 struct {
 	version uint16 `unionTag:"6"`
